@@ -206,7 +206,7 @@ def gen_cases(rng, tier):
 	cases = _gen_cases(rng, tier)
 	# one in five client-side cases is read by a client machine whose request is a CONNECT (its successful responses lose their framing fields)
 	for c in cases:
-		if c.get('kind') == 'client' and rng.random() < .2:
+		if c.get('kind') == 'client' and c.get('k') == 'hostile' and rng.random() < .2:   # (the other kinds expect a delivery)
 			c['kind'] = 'client-connect'
 	return cases
 
